@@ -2,10 +2,12 @@
 
 # obligation kinds that bear on each property (an obligation is counted for property P if the task
 # lists P and the kind is in KINDS[P]; `pre` obligations about engine forwarding belong to C13)
-FUNCTIONAL = {"post", "refines", "lemma", "shape", "safe", "pre", "inv"}
+# (`fresh`/`frame`: the value postconditions are modular - a caller uses the callee's contract, which is only
+# stable if nothing writes in place into a value another function still reads; these obligations discharge that)
+FUNCTIONAL = {"post", "refines", "lemma", "shape", "safe", "pre", "inv", "fresh", "frame"}
 KINDS = {
     "C01": FUNCTIONAL,
-    "C02": {"post", "refines", "lemma", "pre", "frame"},
+    "C02": {"post", "refines", "lemma", "pre", "frame", "fresh"},
     "C03": FUNCTIONAL | {"defined"},
     "C04": FUNCTIONAL | {"frame"},
     "C05": FUNCTIONAL,
@@ -13,15 +15,15 @@ KINDS = {
     "C07": {"safe", "shape", "defined", "pre", "lemma", "frame"},
     "C08": FUNCTIONAL | {"frame"},
     "C09": FUNCTIONAL,
-    "C10": {"post", "lemma", "refines", "frame"},
-    "C11": {"post", "lemma", "pre"},
+    "C10": {"post", "lemma", "refines", "frame", "fresh"},
+    "C11": {"post", "lemma", "pre", "frame", "fresh"},
     "C12": {"fresh", "frame", "lemma"},
     "C13": {"pre", "noglobal", "post", "lemma"},
-    "C14": {"post", "lemma", "refines"},
+    "C14": {"post", "lemma", "refines", "frame", "fresh"},
     "C15": {"refines", "shape", "defined", "safe", "pre", "fresh", "frame"},
     "C16": FUNCTIONAL,
     "C17": {"lemma", "refines", "post", "fresh", "frame"},
-    "C18": {"lemma", "refines", "post"},
+    "C18": {"lemma", "refines", "post", "frame", "fresh"},
     "C19": FUNCTIONAL | {"frame"},
 }
 
